@@ -157,9 +157,18 @@ def _rest(ctx, rep):
     rep.check(st == {"self.closed": "False", "self.orders_cleared": "[]", "self.market_cleared": "[]"}, "R3",
               key(opm, None, "re-opening resets closed and both cleared lists"), opm, None, str(st))
     clm = prog.own_method("Market", "close_market")
-    st = {utext(s.targets[0]): utext(s.value) for s in walk_nodes(clm.node.body, ast.Assign)}
+    st = {}
+    for fn_ in (opm, clm):
+        cfgx = ctx.cfg(fn_)
+        for n in cfgx.live_nodes():
+            if n.kind == "stmt" and isinstance(n.ast, ast.Assign):
+                rep.check(not cfgx.guards(n.id) and cfgx.all_paths_pass(cfgx.entry, cfgx.exit, [n.id]), "R3",
+                          key(fn_, n.ast, "unconditional"), fn_, n.ast,
+                          "a conditional reset keeps state of an earlier closure (e.g. the first closing time)")
+                if fn_ is clm:
+                    st[utext(n.ast.targets[0])] = utext(n.ast.value)
     rep.check(st.get("self.closed") == "True" and st.get("self.date_time_closed") == "datetime.datetime.utcnow()", "R3",
-              key(clm, None, "closing sets the flag and the closing time"), clm, None, str(st))
+              key(clm, None, "closing sets the flag and the time of THIS closure"), clm, None, str(st))
     for q in ("BaseFlumine._process_market_books", "FlumineSimulation._process_market_books", "BaseFlumine._process_raw_data"):
         cn, mn = q.split(".")
         g = prog.own_method(cn, mn)
@@ -310,6 +319,10 @@ MUTANTS = [
          expect=["R1"], why="orders reported cleared once per client"),
     dict(id="c20-open-market-keeps-cleared", file="flumine/markets/market.py", func="Market.open_market",
          old="        self.market_cleared = []\n", new="", expect=["R3"], why="re-opened market never reports cleared again"),
+    dict(id="c20-first-closing-time-kept", file="flumine/markets/market.py", func="Market.close_market",
+         old="        self.date_time_closed = datetime.datetime.utcnow()\n",
+         new="        if self.date_time_closed is None:\n            self.date_time_closed = datetime.datetime.utcnow()\n", expect=["R3"],
+         why="a re-closed market is removed at once (closed 'for an hour' since its first closure)"),
     dict(id="c20-remove-without-3600", file=_BF, func="BaseFlumine._process_close_market",
          old="                and m.elapsed_seconds_closed > 3600\n", new="", expect=["R4"], why="live markets dropped at closure"),
     dict(id="c20-skip-strategy-remove", file=_BF, func="BaseFlumine._remove_market",
